@@ -186,7 +186,7 @@ PIE_PROPS = {
     "C04": {"fams": [("WF", 150, 2000, {"steps": 6}), ("WF", 300, 2000, {"max_t": 8, "max_r": 5, "steps": 7}), ("WF", 150, 1500, {"max_t": 8, "steps": 7, "wide": 1.0})], "curated": ["bu_shapes.jsonl"], "design": ["bu"]},
     "C05": {"fams": [("INJ", 150, 2000, {}), ("INJ", 50, 700, {"max_t": 7, "max_r": 5})], "curated": [], "design": ["inj"]},
     "C06": {"fams": [("INJ", 150, 1500, {}), ("WF", 60, 600, {}), ("WF", 60, 600, {"max_t": 7, "max_r": 5, "steps": 6}), ("FAULT", 80, 600, {})], "curated": [], "design": ["inj"]},
-    "C07": {"fams": [("INJ", 150, 2000, {}), ("INJ", 50, 700, {"max_t": 7, "max_r": 5})], "curated": [], "design": ["inj"]},
+    "C07": {"fams": [("INJ", 150, 2000, {}), ("INJ", 50, 700, {"max_t": 7, "max_r": 5})], "curated": ["c07_cycle_shapes.jsonl"], "design": ["inj"]},
     "C08": {"fams": [("WF", 90, 1200, {}), ("TWOCHK", 40, 600, {}), ("ABORT", 50, 800, {})], "curated": ["k2_two_checkers.jsonl"], "design": ["td"]},
     "C09": {"fams": [("WF", 250, 2000, {}), ("WF", 80, 800, {"max_t": 7, "max_r": 5, "steps": 6})], "curated": [], "design": ["td"]},
     "C15": {"fams": [("IDENT", 250, 1500, {"steps": 6})], "curated": [], "design": []},
